@@ -162,7 +162,32 @@ func ruleP2(c *Ctx, id string) {
 			return cc != nil && !cc.IsInvoke() && sub.resolve(stripConv(cc.Value)) == ssa.Value(fparam)
 		}
 		nLim := 0
-		for _, br := range branches(bodyFn) {
+		// the limit tests: conditions of branches, and comparisons whose value is handed back ("return n >= count":
+		// the iterator that called the body ends the scan on it)
+		lims := branches(bodyFn)
+		for _, b := range bodyFn.Blocks {
+			for _, in := range b.Instrs {
+				bo, ok := in.(*ssa.BinOp)
+				if !ok {
+					continue
+				}
+				switch bo.Op {
+				case token.GEQ, token.GTR, token.LSS, token.LEQ:
+				default:
+					continue
+				}
+				isCond := false
+				for _, r := range refs(bo) {
+					if _, isIf := r.(*ssa.If); isIf {
+						isCond = true
+					}
+				}
+				if !isCond {
+					lims = append(lims, Branch{Block: b, Cond: Cond{Op: bo.Op, X: bo.X, Y: bo.Y}})
+				}
+			}
+		}
+		for _, br := range lims {
 			// limit tests compare against a parameter (count / dircount / maxcount)
 			isLimit := false
 			for _, v := range []ssa.Value{br.Cond.X, br.Cond.Y} {
